@@ -79,9 +79,15 @@ void PolicyBase::open( bool from_reopen)
 {
 
    const auto  filename = filename::Builder::filename( mFilenameDefinition);
+   // when the log file is opened the first time (program start), an existing
+   // file must be kept and the new messages are appended to it
+   // after the log files were rolled, a new, empty file must be started
+   const auto  mode = from_reopen
+      ? (std::ios_base::out | std::ios_base::trunc)
+      : (std::ios_base::out | std::ios_base::app | std::ios_base::ate);
 
 
-   mFile.open( filename, std::ios_base::out | std::ios_base::ate);
+   mFile.open( filename, mode);
 
    if (!mFile || !mFile.is_open())
    {
@@ -94,7 +100,7 @@ void PolicyBase::open( bool from_reopen)
          common::FileOperations::mkdir( path);
 
          // try again
-         mFile.open( filename, std::ios_base::out | std::ios_base::ate);
+         mFile.open( filename, mode);
       } // end if
    } // end if
 
